@@ -391,13 +391,15 @@ private def w (a b : Int) : Window := ⟨a, b⟩
 private def goodToken : Token :=
   { parses := true, imprintMatches := true, genTime := 50, accSeconds := 0, accMillis := 0, accMicros := 0,
     baselinePolicy := false, tsaRootListed := true, tsaCertOk := true, chainRulesOk := true }
+private def obs (ev e a : Bool) : Obs :=
+  { evaluated := ev, expiryFailed := e, authTsFailed := a, tsaRevocationArgsOk := true, signingRevocationArgsOk := true }
 private def base : Input :=
   { now := 100, scheme := .x509, signingTime := 10, expiry := some 101, chain := [w 0 200, w 0 300],
     tsaListed := false, option := .unset, token := none, tsaStoresLoad := true, tsaStoresNonEmpty := true,
     tsaRevocationError := false, tsaRevocation := [.ok, .ok], tsaChainLen := 2 }
 
 -- valid now, unexpired: both pass
-example : run base = { evaluated := true, expiryFailed := false, authTsFailed := false } := by decide
+example : run base = (obs true false false) := by decide
 -- expiry equal to the clock fails
 example : (run { base with expiry := some 100 }).expiryFailed = true := by decide
 -- an expired certificate fails without timestamping ...
@@ -414,16 +416,19 @@ example : (run { base with tsaListed := true, token := some goodToken, tsaRevoca
 example : (run { base with scheme := .signingAuthority, now := 1000, signingTime := 200 }).authTsFailed = false := by decide
 example : (run { base with scheme := .signingAuthority, now := 100, signingTime := 201 }).authTsFailed = true := by decide
 -- `Holds` rejects wrong observations
-example : Holds { base with expiry := some 100 } { evaluated := true, expiryFailed := false, authTsFailed := false } = false := by decide
-example : Holds { base with chain := [w 0 200, w 0 99] } { evaluated := true, expiryFailed := false, authTsFailed := false } = false := by decide
-example : Holds { base with tsaListed := true } { evaluated := true, expiryFailed := false, authTsFailed := false } = false := by decide
-example : Holds { base with scheme := .signingAuthority, signingTime := 201 } { evaluated := true, expiryFailed := false, authTsFailed := false } = false := by decide
+example : Holds { base with expiry := some 100 } (obs true false false) = false := by decide
+example : Holds { base with chain := [w 0 200, w 0 99] } (obs true false false) = false := by decide
+example : Holds { base with tsaListed := true } (obs true false false) = false := by decide
+example : Holds { base with scheme := .signingAuthority, signingTime := 201 } (obs true false false) = false := by decide
 -- a result vector that does not have one entry per TSA certificate fails, even if every entry is OK
 example : (run { base with tsaListed := true, token := some goodToken, tsaRevocation := [.ok] }).authTsFailed = true := by decide
 example : (run { base with tsaListed := true, token := some goodToken, tsaRevocation := [.ok, .ok, .ok] }).authTsFailed = true := by decide
 example : (run { base with tsaListed := true, token := some goodToken }).authTsFailed = false := by decide
 -- an outcome without the two results does not satisfy the property
-example : Holds base { evaluated := false, expiryFailed := false, authTsFailed := false } = false := by decide
+example : Holds base (obs false false false) = false := by decide
+-- a TSA revocation check that was handed an authentic signing time, or the wrong chain, does not satisfy the property
+example : Holds base { obs true false false with tsaRevocationArgsOk := false } = false := by decide
+example : Holds base { obs true false false with signingRevocationArgsOk := false } = false := by decide
 example : Holds base (run base) = true := by decide
 
 end NotationModel.C06
